@@ -280,9 +280,9 @@ func vh_tuple() {
 	}
 	d2, e2 := Marshal(info, []interface{}{a, second})
 	vAssert(e2 == nil && refBytesSame(d2, want), "C12/tuple/interface-slice/bytes")
-	// decode into struct
+	// decode into struct (C12 labels: the specification's bytes; C02 labels: what the driver itself wrote)
 	var st vTupleStruct12
-	ok := Unmarshal(info, want, &st) == nil && st.A == int(a)
+	ok := Unmarshal(info, d1, &st) == nil && st.A == int(a)
 	if bNull {
 		ok = ok && st.B == nil
 	} else {
@@ -292,7 +292,7 @@ func vh_tuple() {
 	// decode into the destinations Iter.Scan passes for a tuple column
 	var ga int32
 	var gs *string
-	ok = Unmarshal(info, want, []interface{}{&ga, &gs}) == nil && ga == a
+	ok = Unmarshal(info, d2, []interface{}{&ga, &gs}) == nil && ga == a
 	if bNull {
 		ok = ok && gs == nil
 	} else {
@@ -332,7 +332,7 @@ func vh_udt() {
 	d2, e2 := Marshal(info, m)
 	vAssert(e2 == nil && refBytesSame(d2, want), "C12/udt/map/bytes")
 	var st vUDTStruct12
-	ok := Unmarshal(info, want, &st) == nil && st.First == int(a)
+	ok := Unmarshal(info, d1, &st) == nil && st.First == int(a)
 	if bNull {
 		ok = ok && st.Second == nil
 	} else {
@@ -340,7 +340,7 @@ func vh_udt() {
 	}
 	vAssert(ok, "C02/udt/tagged-struct/roundtrip")
 	var gm map[string]interface{}
-	ok = Unmarshal(info, want, &gm) == nil && len(gm) == 2
+	ok = Unmarshal(info, d2, &gm) == nil && len(gm) == 2
 	if ok {
 		ga, isInt := gm["a"].(int)
 		ok = isInt && ga == int(a)
@@ -380,7 +380,7 @@ func vh_nested() {
 	data, err := Marshal(linfo, src)
 	vAssert(err == nil && refBytesSame(data, want), "C12/nested/list-of-tuples/bytes")
 	var back []vTupleStruct12
-	ok := Unmarshal(linfo, want, &back) == nil && len(back) == n
+	ok := Unmarshal(linfo, data, &back) == nil && len(back) == n
 	for i := 0; ok && i < n; i++ {
 		ok = back[i].A == src[i].A && (back[i].B == nil) == (src[i].B == nil)
 		if ok && src[i].B != nil {
@@ -404,7 +404,7 @@ func vh_nested() {
 	md, me := Marshal(minfo, map[string][]int32{k: inner})
 	vAssert(me == nil && refBytesSame(md, mwant), "C12/nested/map-of-lists/bytes")
 	var mb map[string][]int32
-	ok = Unmarshal(minfo, mwant, &mb) == nil && len(mb) == 1 && len(mb[k]) == m
+	ok = Unmarshal(minfo, md, &mb) == nil && len(mb) == 1 && len(mb[k]) == m
 	for i := 0; ok && i < m; i++ {
 		ok = mb[k][i] == inner[i]
 	}
